@@ -67,6 +67,9 @@ where
       None
     }
   }
+  pub fn take(&self) -> Option<Arc<Box<dyn Fn(In) -> Out + Send + Sync + 'a>>> {
+    self.inner.write().unwrap().take().map(|x| x.func)
+  }
   pub fn call_and_clear_if_available(&self, indata: In) -> Option<Out> {
     let f = {
       let mut f = self.inner.write().unwrap();
